@@ -45,6 +45,34 @@ def real_step_check(check_rows=True):
     if r_["violations"]:
         v = r_["violations"][0]
         return {"reproduced": True, "input": v.get("input"), "observed": v.get("observed"), "required": v.get("required"), "clause": v.get("clause")}
+    return large_run_check()
+
+
+def large_run_check():
+    """input SIZE as a class of its own: one run with more than 2^20 stored values (ideal reservoir: the system is rebuilt
+    here from dt/dx^2 alone); every stored level must satisfy the backward-Euler system of the stored previous level at
+    rounding level, in a float64 field"""
+    import numpy as np
+    flow = __import__("bluebonnet.flow", fromlist=["x"])
+    nx_, nt_ = 240, 4600
+    t = np.linspace(0.0, 1.2, nt_) ** 2
+    r = flow.IdealReservoir(nx_, 1000.0, 8000.0)
+    r.simulate(t)
+    pp = np.asarray(r.pseudopressure)
+    inp = {"reservoir": "IdealReservoir", "nx": nx_, "time": f"linspace(0, 1.2, {nt_})**2", "stored values": nx_ * nt_}
+    if pp.dtype != np.float64:
+        return {"reproduced": True, "input": inp, "observed": {"dtype of the stored field": str(pp.dtype)}, "required": "float64 (the stored level is the state of the next step)"}
+    dx2 = (1.0 / (nx_ - 1)) ** 2
+    k = np.diff(t)[:, None] / dx2
+    x, b = pp[1:].astype(float), pp[:-1].astype(float)
+    ax = (1 + 2 * k) * x
+    ax[:, -1] = ((1 + k) * x[:, -1:])[:, 0]
+    ax[:, :-1] -= k * x[:, 1:]
+    ax[:, 1:] -= k * x[:, :-1]
+    res = np.abs(ax - b).max(axis=1) / (1 + 4 * k[:, 0])
+    i_ = int(np.argmax(res))
+    if not np.isfinite(res).all() or res[i_] > 1e-11:
+        return {"reproduced": True, "input": inp, "observed": {"largest scaled residual of A x = b": float(res[i_]), "at step": i_}, "required": "<= 1e-11 (rounding level of a direct solve)"}
     return {"reproduced": False}
 
 
